@@ -26,6 +26,13 @@ def gen_lines(rng, impl, tier):
         cts = [v for _, v in dict(gen_tables.local_int_enums())['TlsContentType']]
         lines.append('recenc %d %d %s' % (rng.choice(cts), rng.choice(tlsgen.codes_of('TlsVersionFactory')), framegen.rnd_payload(rng).hex() or '-'))
         lines.append('alertenc %d %d' % (rng.choice([1, 2]), rng.choice([v for _, v in dict(gen_tables.local_int_enums())['TlsAlertDescription']])))
+    # SSL 2.0 hello messages: cipher kinds of the library's table, session / connection ids and challenges of 0..32 bytes
+    kinds = tlsgen.codes_of('SslCipherKindFactory')
+    for _ in range(max(20, n // 3)):
+        ck = ','.join(str(rng.choice(kinds)) for _ in range(rng.randint(0, 5))) or '-'
+        lines.append('ssl2chenc %s %s %s' % (ck, framegen.rnd_bytes(rng, rng.choice([0, 0, 8, 16, 32])).hex() or '-', framegen.rnd_bytes(rng, rng.choice([16, 24, 32])).hex()))
+        lines.append('ssl2shenc %d 1 %s %s %s' % (rng.randint(0, 1), framegen.rnd_bytes(rng, rng.choice([0, 1, 300])).hex() or '-', ck,
+                                                 framegen.rnd_bytes(rng, rng.choice([0, 16, 32])).hex() or '-'))
     lines += ['shdenc', 'ccsenc', 'recenc 22 771 ' + '00' * 65535, 'recenc 22 771 ' + '00' * 65536]
     # vectors at their floor / ceiling
     for kind, w, lo, hi in (('G', 2, 1, 32766), ('P', 1, 1, 255), ('S', 2, 1, 32766), ('V', 2, 1, 127), ('K', 1, 1, 255)):
@@ -45,7 +52,7 @@ def run(chk):
         for l, m, i in zip(lines, model_out, impl_out):
             # the spec answers NONE where the RFC has no encoding; the implementation must then refuse as well
             mm = 'REFUSED' if m == 'NONE' else m
-            ii = 'REFUSED' if (i.startswith('ERR') or i.startswith('LEAK TypeError')) else i
+            ii = 'REFUSED' if (i.startswith('ERR') or i.startswith('LEAK TypeError')) else i   # RoundTripError (parse-back differs) is not a refusal
             if mm != ii:
                 res.append((l, m, i))
         return res
@@ -87,7 +94,7 @@ def run(chk):
     chk.coverage['evaluations'] = len(lines) + len(dec_lines)
     chk.coverage['distinct_nontrivial'] = len(set(l for l, o in zip(lines, impl_out) if o.startswith('OK')))
     chk.coverage['traces_validated_against_impl'] = len(lines) + len(dec_lines)
-    chk.coverage['rule'] = ('client hellos (all versions; known / unknown / GREASE / signalling suites; 1-6 extensions of nine typed kinds plus '
+    chk.coverage['rule'] = ('SSL 2.0 client and server hellos (composed from field values, compared with the specification, parsed back and compared with the values); client hellos (all versions; known / unknown / GREASE / signalling suites; 1-6 extensions of nine typed kinds plus '
                             'unknown, GREASE and empty-payload extensions; session ids of 0/16/32 bytes), server hellos, certificate chains, '
                             'records, alerts, CCS, ServerHelloDone and the payloads of supported_groups, ec_point_formats, supported_versions, '
                             'signature_algorithms, ALPN, SNI, psk modes, record size limit, renegotiation info (also at the floor and ceiling of '
@@ -97,7 +104,7 @@ def run(chk):
     for i in range(0, len(lines), max(1, len(lines) // 10)):
         chk.sample({'cmd': lines[i][:160], 'outcome': impl_out[i][:120]})
     chk.assumptions += ['the specification is a transcription of the RFCs from memory, validated against the implementation and proved coherent (decode after encode)',
-                        'SSL 2.0 messages, key_share, status_request, SCT, token binding and certificate request are not yet in the specification']
+                        'SSL 2.0 CLIENT-MASTER-KEY and later messages, key_share, status_request, SCT, token binding and certificate request are not yet in the specification']
 
 
 def replay(path):
